@@ -7987,7 +7987,12 @@ def cimvalue(value, type):
     type_obj = type_from_name(type)  # Raises ValueError if invalid type
     if isinstance(value, type_obj):
         return value
-    return type_obj(value)
+    try:
+        return type_obj(value)
+    except OverflowError as exc:
+        raise ValueError(
+            _format("Input value {0!A} cannot be represented in CIM type {1}: "
+                    "{2}", value, type, exc))
 
 
 def _partition(str_arg, sep):
